@@ -13,3 +13,4 @@ for id in $ids; do
   echo "$id rc=$rc $(tail -1 /tmp/harmless_$id.log | cut -c1-140)"
 done
 git -C /repo worktree remove --force $W
+rm -rf /verif/build/scratch_tmp_harmless_wt
